@@ -86,8 +86,15 @@ def cases(rng, tier):
             txt = {"name": owner, "class": 1, "ttl": 120, "cf": False, "rdata": ("T", "TXT", [("L", [(0, b"k=v")])])}
             pkt = pC13.query_pkt(0, [])
             pkt["flags"] = 0x8400
-            layout = rng.below(4)
-            if layout == 0:
+            layout = rng.below(6)
+            own_ptr = {"name": svc, "class": 1, "ttl": 120, "cf": False, "rdata": ("T", "PTR", [("N", me)])}
+            if layout == 4:
+                # the answer section holds only what the discoverer itself registered (its looped-back PTR, exactly as stored);
+                # the peer's records ride in the additional section of the same message
+                pkt["ans"], pkt["adds"] = [own_ptr], [srv, txt, addr]
+            elif layout == 5:
+                pkt["ans"], pkt["adds"] = [own_ptr, dict(own_ptr, ttl=4500)], [addr, srv, txt]
+            elif layout == 0:
                 pkt["ans"], pkt["adds"] = [srv, txt], [addr]
             elif layout == 1:
                 pkt["ans"], pkt["adds"] = [], [srv, txt, addr]
